@@ -22,6 +22,7 @@ MNext ==
   \/ Step(StopGo(r), <<"i">>)
   \/ \E e \in BOOLEAN : Step(SessionEnd(r, e), <<"end", e>>)
   \/ r.live /\ ~r.grace /\ Step(Graceful(r), <<"graceful">>)
+  \/ r.att = "finishing" /\ ~r.vb /\ Step(VerdictBad(r), <<"verdict_bad">>)
   \* time passes to the retry timer, or a bit (events in between)
   \/ ~fin /\ r.timer # NoT /\ r.timer > r.now /\ r.timer <= MaxTime /\ AtRest(r) /\ k' = k /\ r' = [Begin(r) EXCEPT !.now = r.timer]
         /\ H(<<"totimer">>) /\ UNCHANGED fin
